@@ -21,7 +21,7 @@ KSEG = 6  # at most 6 '/' in a path => 7 segments
 def caps(tier):
     # path = capacity for which the sanitiser's contract is decided; uri/label are chosen so that every
     # argument uri_to_path can hand to the sanitiser fits in it (uri, or label + "/" + uri)
-    return dict(path=14, uri=8, label=5) if tier == "quick" else dict(path=18, uri=12, label=5)
+    return dict(path=14, uri=14, label=5) if tier == "quick" else dict(path=18, uri=18, label=6)
 
 
 def components_model(I, args, pc):
